@@ -38,11 +38,14 @@ def declare(reg):
         ('left_recursion', 'bool'), ('memoization', 'bool'), ('prune_memos_on_cut', 'bool'), ('parseinfo', 'bool'),
         ('ignorecase', 'bool'), ('trace', 'bool'),
     ])
+    reg.classes['MemoD'] = {
+        'mro': [], 'fields': {'mkeys': 'arr[MemoKeyR,bool]', 'mvals': 'arr[MemoKeyR,Val]'}, 'isa': ['dict'],
+    }
     reg.classes['Ctx'] = {
         'mro': ['tatsu/contexts/context.py:ParseContext', 'tatsu/contexts/engine.py:ParserEngine',
                 'tatsu/contexts/core.py:ParserCore'],
         'fields': {'states': 'States', 'tracer': 'opaque:Tracer', '_active_config': 'ConfigR',
-                   'keywords': 'strset', 'semantics': 'opaque:Semantics'},
+                   'keywords': 'strset', 'semantics': 'opaque:Semantics', '_memos': 'MemoD', '_results': 'MemoD'},
         'wf': ['len(self.states.state_stack) >= 1'],
         'isa': ['Ctx', 'ParseContext', 'ParserEngine', 'ParserCore'],
     }
